@@ -12,7 +12,6 @@ import (
 	"errors"
 	"fmt"
 	"math"
-	"os"
 	"strings"
 	"testing"
 
@@ -34,14 +33,11 @@ const (
 	c19KnownMppLen     = "C19:mpp-total-payload-underestimated"
 )
 
-// c19IsKnown: listed in known_findings.json, or (dev runs only) named in
-// $VERIF_C19_DEV_KNOWN.
+// c19IsKnown: the input class is listed as a known finding. Every use is
+// `if known {tolerate narrowly + count} else {assert}`, so a repair in the
+// tree re-enables the class as soon as the entry is marked fixed.
 func c19IsKnown(key string) bool {
-	if vstats.IsKnown(key) {
-		return true
-	}
-
-	return strings.Contains(os.Getenv("VERIF_C19_DEV_KNOWN"), key)
+	return vstats.IsKnown(key)
 }
 
 // c19BlindedUnderestimate is how many bytes findPath's final-hop size
